@@ -65,6 +65,7 @@ def main(argv=None):
               f"bad_axioms={len(lean['bad_axioms'])} -> {'OK' if lean['ok'] else 'BROKEN'}", flush=True)
 
         # ---- 2. correspondence (model vs implementation) -----------------------------------
+        common.run_defect_corpus(ctx)   # regression witnesses of repaired defects run first
         corr_exc = None
         try:
             mod.correspondence(ctx)
